@@ -156,6 +156,7 @@ def reader_assertions(eng, ctx, cfg, stream, cutsets, label):
     for cuts in cutsets:
         chunks = HC.split(stream, cuts)
         w = {"kind": "hdlc", "cfg": list(cfg), "chunks": chunks}
+        ctx.intend(w)
         _, frames = HC.read_chunks(cfg, chunks)
         if first:
             ctx.witness, ctx.obs, first = w, HC.sig(frames), False
